@@ -9,6 +9,7 @@
   obligation census of C04 counts them.
 -/
 import Torf.Properties.C03
+import Torf.Lemmas.PipelineC04Exc
 namespace Torf.C04
 open Torf.Pipeline Torf.C03
 
@@ -32,5 +33,127 @@ theorem C04_terminates {cfg : Cfg} (hwf : wf cfg = true) (hrf : cfg.refuse = [])
 /-- no internal exception (assertion, IndexError) under any fault plan, start refusals included -/
 theorem C04_no_internal {cfg : Cfg} {s : State} (h : Reachable cfg s) : noInternalError s = true :=
   C03_no_internal h
+
+/-! ### concrete schedules for the non-vacuity examples -/
+
+private def lM : Label := ⟨.main, false⟩
+private def lR : Label := ⟨.reader, false⟩
+private def lH : Label := ⟨.hasher 0, false⟩
+private def lJ : Label := ⟨.janitor, false⟩
+
+/-- the state a schedule leads to -/
+private def after (cfg : Cfg) (ls : List Label) : State := (run cfg (init cfg) ls).getD (init cfg)
+
+private theorem reach_after {cfg : Cfg} {ls : List Label}
+    (h : (run cfg (init cfg) ls).isSome = true) : Reachable cfg (after cfg ls) := by
+  refine ⟨ls, ?_⟩
+  unfold after
+  cases hr : run cfg (init cfg) ls with
+  | none => simp [hr] at h
+  | some s => rfl
+
+/-! ### 5. a read failure surfaces as the read error -/
+
+/-- If the reader thread died of a read error, `generate()`/`verify()` raises that error —
+    whatever the callback did before (cancel, raise) and whatever exception was pending. -/
+theorem C04_read_error {cfg : Cfg} {s : State} (hrf : cfg.refuse = []) (h : Reachable cfg s)
+    (ht : terminal s = true) (hx : s.rexc = true) : result? s = some (.raised .read) :=
+  (InvE.of_reachable hrf h).read_error ht hx
+
+/-- The reader's exception flag is only ever set by the configured read fault (which strikes at
+    an item position `r ≤ #items`; `r = #items` is a failure after the last piece). -/
+theorem C04_read_error_only_fault {cfg : Cfg} {s : State} (h : Reachable cfg s)
+    (hx : s.rexc = true) : ∃ r, cfg.readFault = some r ∧ r ≤ cfg.items.length :=
+  (InvG.of_reachable h).rexcCfg hx
+
+/-- Conversely the read error is raised only if the reader really failed (every configuration). -/
+theorem C04_read_error_only_if {cfg : Cfg} {s : State} (h : Reachable cfg s)
+    (hr : result? s = some (.raised .read)) : s.rexc = true := by
+  have hm := terminal_of_result hr
+  exact (InvG.of_reachable h).rdExc (by rw [hm]; rfl)
+
+/-- one hasher, capacity 1, two data pieces, the generator raises instead of yielding piece 1 -/
+private def cfgRead : Cfg :=
+  { N := 1, cap := 1, items := [.data, .data], readFault := some 1, refuse := [], raiseOnBad := false,
+    cb := fun _ _ => .pass }
+
+private def schedRead : List Label :=
+  [lM, lM, lM, lM, lM, lM, lR, lR, lH, lH, lR, lH, lH, lH, lH, lJ, lJ, lJ, lJ, lM, lM, lM, lM, lM]
+
+/-- the hypotheses of `C04_read_error` are satisfiable: piece 0 was hashed and collected, the read
+    of piece 1 failed, main raises the read error -/
+example : cfgRead.refuse = [] ∧ Reachable cfgRead (after cfgRead schedRead) ∧
+    terminal (after cfgRead schedRead) = true ∧ (after cfgRead schedRead).rexc = true ∧
+    (after cfgRead schedRead).seen = [0] ∧
+    result? (after cfgRead schedRead) = some (.raised .read) :=
+  ⟨rfl, reach_after (by decide), by decide, by decide, by decide, by decide⟩
+
+/-! ### 4. the callback's exception reaches the caller -/
+
+/-- An exception of the user callback that `generate()`/`verify()` raises is the one the callback
+    raised, at the reported value of pieces_done. -/
+theorem C04_callback_exc {cfg : Cfg} {s : State} {d : Nat} (_hrf : cfg.refuse = [])
+    (h : Reachable cfg s) (_ht : terminal s = true) (hr : result? s = some (.raised (.cb d))) :
+    ∃ k, cfg.cb k d = .raise := by
+  have hm := terminal_of_result hr
+  obtain ⟨_, k, _, hk⟩ := (InvG.of_reachable h).cbExc d (by rw [hm]; rfl)
+  exact ⟨k, hk⟩
+
+/-- … more precisely (every configuration, and already while the exception is pending during the
+    join phase): it was raised by the callback call for the last piece collected, and nothing was
+    collected after it. -/
+theorem C04_callback_exc_last {cfg : Cfg} {s : State} {d : Nat} (h : Reachable cfg s)
+    (hp : mainExc s.main = some (.cb d)) :
+    d = s.seen.length ∧ ∃ k, s.seen.getLast? = some k ∧ cfg.cb k d = .raise :=
+  (InvG.of_reachable h).cbExc d hp
+
+/-- Conversely: once main has taken a `raise` decision of the callback at pieces_done = `d` (it
+    carries the pending exception `.cb d` through its join phase), every terminal state reached
+    later raises exactly that exception — unless the reader died of a read error, which then
+    replaces it. -/
+theorem C04_callback_exc_kept {cfg : Cfg} {s s' : State} {d : Nat} {ls : List Label}
+    (h : Reachable cfg s) (hp : mainExc s.main = some (.cb d)) (hrun : run cfg s ls = some s')
+    (ht : terminal s' = true) :
+    result? s' = some (.raised (.cb d)) ∨ (result? s' = some (.raised .read) ∧ s'.rexc = true) :=
+  (Pend.run h (Or.inl hp) hrun).result ht
+
+/-- without a read fault the callback's exception is what the caller gets -/
+theorem C04_callback_exc_kept_nofault {cfg : Cfg} {s s' : State} {d : Nat} {ls : List Label}
+    (hnf : cfg.readFault = none) (h : Reachable cfg s) (hp : mainExc s.main = some (.cb d))
+    (hrun : run cfg s ls = some s') (ht : terminal s' = true) :
+    result? s' = some (.raised (.cb d)) := by
+  rcases C04_callback_exc_kept h hp hrun ht with h1 | ⟨_, hx⟩
+  · exact h1
+  · obtain ⟨r, hr, _⟩ := C04_read_error_only_fault (h.run hrun) hx
+    rw [hnf] at hr; simp at hr
+
+/-- two data pieces; the callback raises at the first report -/
+private def cfgCb : Cfg :=
+  { N := 1, cap := 1, items := [.data, .data], readFault := none, refuse := [], raiseOnBad := false,
+    cb := fun _ d => if d = 1 then .raise else .pass }
+
+/-- the same, and the generator fails after the last piece -/
+private def cfgCbRead : Cfg := { cfgCb with readFault := some 2 }
+
+private def schedCb : List Label :=
+  [lM, lM, lM, lM, lM, lM, lR, lR, lH, lH, lR, lH, lM, lM, lH, lR, lM, lM, lH, lH, lH, lH, lM, lM,
+   lJ, lJ, lJ, lJ, lM]
+
+/-- after 13 steps main has taken the raise decision (pending `.cb 1` in a join pc) while the
+    reader and the hasher are still running; the complete schedule ends with that exception -/
+example : Reachable cfgCb (after cfgCb (schedCb.take 13)) ∧
+    (after cfgCb (schedCb.take 13)).main = .joinReaderChk (some (.cb 1)) ∧
+    run cfgCb (after cfgCb (schedCb.take 13)) (schedCb.drop 13) = some (after cfgCb schedCb) ∧
+    terminal (after cfgCb schedCb) = true ∧
+    result? (after cfgCb schedCb) = some (.raised (.cb 1)) ∧ cfgCb.cb 0 1 = .raise :=
+  ⟨reach_after (by decide), by decide, by decide, by decide, by decide, by decide⟩
+
+/-- with the read fault the same schedule ends with the read error instead -/
+example : Reachable cfgCbRead (after cfgCbRead (schedCb.take 13)) ∧
+    mainExc (after cfgCbRead (schedCb.take 13)).main = some (.cb 1) ∧
+    run cfgCbRead (after cfgCbRead (schedCb.take 13)) (schedCb.drop 13) = some (after cfgCbRead schedCb) ∧
+    terminal (after cfgCbRead schedCb) = true ∧ (after cfgCbRead schedCb).rexc = true ∧
+    result? (after cfgCbRead schedCb) = some (.raised .read) :=
+  ⟨reach_after (by decide), by decide, by decide, by decide, by decide, by decide⟩
 
 end Torf.C04
